@@ -214,6 +214,17 @@ pub fn tx_monitors(h: &Hist, ms: &mut MonState, b: &Obs, line: &str, res: &str, 
                 out.push(format!("mon_pm_excess {} {} {} {} {} {} {}", d, bal(b, "pm", d), sb, bal(a, "pm", d), sa, 0, odd));
             }
         }
+        // C04: over a whole swap or route, the reserves of every denom change by exactly what enters or
+        // leaves the contract (fees of intermediate hops included)
+        if ok && !recv_is_pm && matches!(tx.kind.as_str(), "swap" | "route") {
+            for d in BASE_DENOMS.iter() {
+                let sb: u128 = b.pools.iter().map(|p| reserve(&p.pool_info, d)).sum();
+                let sa: u128 = a.pools.iter().map(|p| reserve(&p.pool_info, d)).sum();
+                if sa != sb || bal(a, "pm", d) != bal(b, "pm", d) {
+                    out.push(format!("mon_swap_conserve {} {} {} {} {}", d, bal(b, "pm", d), sb, bal(a, "pm", d), sa));
+                }
+            }
+        }
         // C17: the switched operation is stopped on every path
         let touched: Vec<(String, &str)> = match tx.kind.as_str() {
             "swap" => vec![(tx.args[0].clone(), "swap")],
